@@ -47,6 +47,354 @@ func c20CallArgs(fd *ast.FuncDecl, name string) [][]ast.Expr {
 	return out
 }
 
+// ---- statement translator for the cursor bookkeeping of TermWriter (multiterm.go) ----
+//
+// New / goTo / writeAtCursor / WriteForLine / Close are translated statement by statement into Lean
+// functions over `W × List Ev` (the writer's fields, and the output-producing calls in program
+// order).  The Go subset: `if c { … }` without else, `for i := e; i <op> e; i++|i-- { … }`,
+// `s.f++ / s.f-- / s.f = e`, calls of fmt.Print(lit) / fmt.Println() / moveUp(e) / hideCursor() /
+// showCursor() / eraseRemainingLine() / WriteLineNoWrap(os.Stdout, x) / s.goTo(e) /
+// s.writeAtCursor(x); integer and boolean expressions over the int parameters, the loop variable
+// and the receiver's fields.  Anything else makes the function untranslatable (its definition is
+// then missing and the theorems of Props/C20 that mention it stop compiling).
+
+var c20Fields = map[string][2]string{ // Go field -> Lean field, type
+	"cursor":       {"cursor", "int"},
+	"cursorHidden": {"cursorHidden", "bool"},
+	"maxLine":      {"maxLine", "int"},
+	"ClearLine":    {"clearLine", "bool"},
+	"HideCursor":   {"hideCursor", "bool"},
+}
+
+type c20tr struct {
+	recv string
+	ints map[string]bool // int-typed locals in scope (parameters, loop variables)
+	bad  string
+}
+
+func (t *c20tr) fail(why string) string {
+	if t.bad == "" {
+		t.bad = why
+	}
+	return "sorryAx _"
+}
+
+func (t *c20tr) expr(e ast.Expr) (string, string) {
+	switch v := e.(type) {
+	case *ast.ParenExpr:
+		return t.expr(v.X)
+	case *ast.BasicLit:
+		if n, ok := IntLit(v); ok && v.Kind == token.INT {
+			return fmt.Sprintf("(%d : Int)", n), "int"
+		}
+	case *ast.Ident:
+		if v.Name == "true" || v.Name == "false" {
+			return v.Name, "bool"
+		}
+		if t.ints[v.Name] {
+			return v.Name, "int"
+		}
+	case *ast.SelectorExpr:
+		if id, ok := v.X.(*ast.Ident); ok && id.Name == t.recv {
+			if f, ok := c20Fields[v.Sel.Name]; ok {
+				return "s.1." + f[0], f[1]
+			}
+		}
+	case *ast.UnaryExpr:
+		if v.Op == token.NOT {
+			a, ta := t.expr(v.X)
+			if ta == "bool" {
+				return "(!" + a + ")", "bool"
+			}
+		}
+	case *ast.BinaryExpr:
+		a, ta := t.expr(v.X)
+		b, tb := t.expr(v.Y)
+		switch v.Op {
+		case token.LSS, token.GTR, token.LEQ, token.GEQ, token.EQL, token.NEQ:
+			if ta == "int" && tb == "int" {
+				op := map[token.Token]string{token.LSS: "<", token.GTR: ">", token.LEQ: "≤", token.GEQ: "≥", token.EQL: "=", token.NEQ: "≠"}[v.Op]
+				return fmt.Sprintf("decide (%s %s %s)", a, op, b), "bool"
+			}
+		case token.LAND, token.LOR:
+			if ta == "bool" && tb == "bool" {
+				op := map[token.Token]string{token.LAND: "&&", token.LOR: "||"}[v.Op]
+				return fmt.Sprintf("(%s %s %s)", a, op, b), "bool"
+			}
+		case token.ADD, token.SUB:
+			if ta == "int" && tb == "int" {
+				return fmt.Sprintf("(%s %s %s)", a, v.Op.String(), b), "int"
+			}
+		}
+	}
+	return t.fail(fmt.Sprintf("expression %T", e)), "?"
+}
+
+func (t *c20tr) recvField(e ast.Expr) (string, string, bool) {
+	if se, ok := e.(*ast.SelectorExpr); ok {
+		if id, ok := se.X.(*ast.Ident); ok && id.Name == t.recv {
+			if f, ok := c20Fields[se.Sel.Name]; ok {
+				return f[0], f[1], true
+			}
+		}
+	}
+	return "", "", false
+}
+
+func c20CallName(call *ast.CallExpr) string {
+	switch f := call.Fun.(type) {
+	case *ast.Ident:
+		return f.Name
+	case *ast.SelectorExpr:
+		if id, ok := f.X.(*ast.Ident); ok {
+			return id.Name + "." + f.Sel.Name
+		}
+	}
+	return ""
+}
+
+func (t *c20tr) emitEv(ev string) string { return fmt.Sprintf("(s.1, s.2 ++ [%s])", ev) }
+
+// stmt returns the Lean term for the state after the statement (in terms of the state `s` before it)
+func (t *c20tr) stmt(st ast.Stmt) string {
+	switch v := st.(type) {
+	case *ast.IfStmt:
+		if v.Init != nil || v.Else != nil {
+			return t.fail("if with init/else")
+		}
+		c, tc := t.expr(v.Cond)
+		if tc != "bool" {
+			return t.fail("if condition")
+		}
+		return fmt.Sprintf("if %s then (%s) else s", c, t.block(v.Body.List))
+	case *ast.ForStmt:
+		init, ok := v.Init.(*ast.AssignStmt)
+		if !ok || init.Tok != token.DEFINE || len(init.Lhs) != 1 || len(init.Rhs) != 1 {
+			return t.fail("for init")
+		}
+		iv, ok := init.Lhs[0].(*ast.Ident)
+		if !ok || t.ints[iv.Name] {
+			return t.fail("for variable")
+		}
+		start, ts := t.expr(init.Rhs[0])
+		if ts != "int" {
+			return t.fail("for start")
+		}
+		post, ok := v.Post.(*ast.IncDecStmt)
+		if !ok {
+			return t.fail("for post")
+		}
+		if pid, ok := post.X.(*ast.Ident); !ok || pid.Name != iv.Name {
+			return t.fail("for post variable")
+		}
+		step := "+"
+		if post.Tok == token.DEC {
+			step = "-"
+		}
+		t.ints[iv.Name] = true
+		cond, tc := t.expr(v.Cond)
+		body := t.block(v.Body.List)
+		delete(t.ints, iv.Name)
+		if tc != "bool" {
+			return t.fail("for condition")
+		}
+		return fmt.Sprintf("forLoop fuel (fun %s => %s) (fun %s => %s %s 1) (fun %s s => (%s)) %s s",
+			iv.Name, cond, iv.Name, iv.Name, step, iv.Name, body, start)
+	case *ast.IncDecStmt:
+		f, tf, ok := t.recvField(v.X)
+		if !ok || tf != "int" {
+			return t.fail("inc/dec target")
+		}
+		op := "+"
+		if v.Tok == token.DEC {
+			op = "-"
+		}
+		return fmt.Sprintf("({ s.1 with %s := s.1.%s %s 1 }, s.2)", f, f, op)
+	case *ast.AssignStmt:
+		if v.Tok != token.ASSIGN || len(v.Lhs) != 1 || len(v.Rhs) != 1 {
+			return t.fail("assignment form")
+		}
+		f, tf, ok := t.recvField(v.Lhs[0])
+		if !ok {
+			return t.fail("assignment target")
+		}
+		e, te := t.expr(v.Rhs[0])
+		if te != tf {
+			return t.fail("assignment type")
+		}
+		return fmt.Sprintf("({ s.1 with %s := %s }, s.2)", f, e)
+	case *ast.ExprStmt:
+		call, ok := v.X.(*ast.CallExpr)
+		if !ok {
+			return t.fail("expression statement")
+		}
+		switch name := c20CallName(call); name {
+		case "fmt.Print":
+			if len(call.Args) == 1 {
+				if lit, ok := StringLit(call.Args[0]); ok {
+					return t.emitEv("Ev.print " + c20Bytes(lit))
+				}
+			}
+		case "fmt.Println":
+			if len(call.Args) == 0 {
+				return t.emitEv("Ev.print " + c20Bytes("\n"))
+			}
+		case "moveUp":
+			if len(call.Args) == 1 {
+				if e, te := t.expr(call.Args[0]); te == "int" {
+					return t.emitEv("Ev.moveUp " + e)
+				}
+			}
+		case "hideCursor", "showCursor", "eraseRemainingLine":
+			if len(call.Args) == 0 {
+				return t.emitEv("Ev." + name)
+			}
+		case "WriteLineNoWrap":
+			if len(call.Args) == 2 {
+				if se, ok := call.Args[0].(*ast.SelectorExpr); ok {
+					if id, ok := se.X.(*ast.Ident); ok && id.Name == "os" && se.Sel.Name == "Stdout" {
+						if _, ok := call.Args[1].(*ast.Ident); ok {
+							return t.emitEv("Ev.writeLineNoWrap")
+						}
+					}
+				}
+			}
+		case t.recv + ".goTo":
+			if len(call.Args) == 1 {
+				if e, te := t.expr(call.Args[0]); te == "int" {
+					return fmt.Sprintf("goTo fuel %s s", e)
+				}
+			}
+		case t.recv + ".writeAtCursor":
+			if len(call.Args) == 1 {
+				if _, ok := call.Args[0].(*ast.Ident); ok {
+					return "writeAtCursor fuel s"
+				}
+			}
+		}
+		return t.fail("call " + c20CallName(call))
+	}
+	return t.fail(fmt.Sprintf("statement %T", st))
+}
+
+func (t *c20tr) block(list []ast.Stmt) string {
+	var sb strings.Builder
+	for _, st := range list {
+		sb.WriteString("let s := " + t.stmt(st) + "; ")
+	}
+	sb.WriteString("s")
+	return sb.String()
+}
+
+// c20Func emits `def <leanName> (fuel : Nat) (<int params>) (s : W × List Ev) : W × List Ev`.
+func c20Func(c *Ctx, sb *strings.Builder, file, goName, leanName, doc string) {
+	fd := c.Func(file, goName)
+	if fd == nil || fd.Body == nil || fd.Recv == nil || len(fd.Recv.List) != 1 || len(fd.Recv.List[0].Names) != 1 ||
+		(fd.Type.Results != nil && len(fd.Type.Results.List) > 0) {
+		sb.WriteString(untranslatable(leanName))
+		return
+	}
+	t := &c20tr{recv: fd.Recv.List[0].Names[0].Name, ints: map[string]bool{}}
+	params := ""
+	for _, f := range fd.Type.Params.List {
+		id, ok := f.Type.(*ast.Ident)
+		if !ok || (id.Name != "int" && id.Name != "string") {
+			sb.WriteString(untranslatable(leanName))
+			return
+		}
+		for _, n := range f.Names {
+			if id.Name == "int" {
+				t.ints[n.Name] = true
+				params += fmt.Sprintf(" (%s : Int)", n.Name)
+			}
+		}
+	}
+	var lines []string
+	for _, st := range fd.Body.List {
+		lines = append(lines, "  let s := "+t.stmt(st))
+	}
+	if t.bad != "" {
+		fmt.Fprintf(sb, "-- %s: %s\n", goName, t.bad)
+		sb.WriteString(untranslatable(leanName))
+		return
+	}
+	fmt.Fprintf(sb, "/-- %s -/\ndef %s (fuel : Nat)%s (s : W × List Ev) : W × List Ev :=\n%s\n  s\n\n", doc, leanName, params, strings.Join(lines, "\n"))
+}
+
+// c20New emits the composite literal returned by New() as a W.
+func c20New(c *Ctx, sb *strings.Builder, file string) {
+	fd := c.Func(file, "New")
+	vals := map[string]string{"cursor": "0", "cursorHidden": "false", "maxLine": "0", "clearLine": "false", "hideCursor": "false"}
+	ok := fd != nil && fd.Body != nil && len(fd.Body.List) == 1
+	if ok {
+		ret, isRet := fd.Body.List[0].(*ast.ReturnStmt)
+		ok = isRet && len(ret.Results) == 1
+		if ok {
+			var lit *ast.CompositeLit
+			if u, isU := ret.Results[0].(*ast.UnaryExpr); isU && u.Op == token.AND {
+				lit, _ = u.X.(*ast.CompositeLit)
+			}
+			ok = lit != nil
+			if ok {
+				t := &c20tr{recv: "", ints: map[string]bool{}}
+				for _, el := range lit.Elts {
+					kv, isKV := el.(*ast.KeyValueExpr)
+					if !isKV {
+						ok = false
+						break
+					}
+					k, isId := kv.Key.(*ast.Ident)
+					if !isId {
+						ok = false
+						break
+					}
+					f, known := c20Fields[k.Name]
+					e, te := t.expr(kv.Value)
+					if !known || te != f[1] || t.bad != "" {
+						ok = false
+						break
+					}
+					vals[f[0]] = e
+				}
+			}
+		}
+	}
+	if !ok {
+		sb.WriteString(untranslatable("new"))
+		return
+	}
+	fmt.Fprintf(sb, "/-- multiterm.go New() -/\ndef new : W :=\n  { cursor := %s, cursorHidden := %s, maxLine := %s, clearLine := %s, hideCursor := %s }\n\n",
+		vals["cursor"], vals["cursorHidden"], vals["maxLine"], vals["clearLine"], vals["hideCursor"])
+}
+
+const c20Prelude = `/-- the fields of TermWriter -/
+structure W where
+  cursor : Int
+  cursorHidden : Bool
+  maxLine : Int
+  clearLine : Bool
+  hideCursor : Bool
+  deriving DecidableEq, Repr
+
+/-- the calls that write to the terminal, in program order -/
+inductive Ev where
+  | print (b : List UInt8)
+  | moveUp (n : Int)
+  | hideCursor
+  | showCursor
+  | eraseRemainingLine
+  | writeLineNoWrap
+  deriving DecidableEq, Repr
+
+/-- Go ` + "`for i := start; cond i; i = next i { body }`" + ` (at most ` + "`fuel`" + ` iterations) -/
+def forLoop (fuel : Nat) (cond : Int → Bool) (next : Int → Int) (body : Int → W × List Ev → W × List Ev) :
+    Int → W × List Ev → W × List Ev :=
+  match fuel with
+  | 0 => fun _ s => s
+  | f + 1 => fun i s => if cond i then forLoop f cond next body (next i) (body i s) else s
+
+`
+
 func init() {
 	RegisterGen("C20", func(c *Ctx) string {
 		var sb strings.Builder
@@ -148,6 +496,13 @@ func init() {
 			sb.WriteString(untranslatable("trimEsc"))
 			sb.WriteString(untranslatable("trimEnd"))
 		}
+		// the cursor bookkeeping, statement by statement
+		sb.WriteString(c20Prelude)
+		c20New(c, &sb, mt)
+		c20Func(c, &sb, mt, "TermWriter.goTo", "goTo", "multiterm.go goTo(line)")
+		c20Func(c, &sb, mt, "TermWriter.writeAtCursor", "writeAtCursor", "multiterm.go writeAtCursor(text)")
+		c20Func(c, &sb, mt, "TermWriter.WriteForLine", "writeForLine", "multiterm.go WriteForLine(line, text)")
+		c20Func(c, &sb, mt, "TermWriter.Close", "close", "multiterm.go Close()")
 		sb.WriteString("end Rare.Gen.C20\n")
 		return sb.String()
 	})
